@@ -1,6 +1,6 @@
 """C10 — width/fill/alignment count characters, truncate then pad, never split UTF-8."""
 from l4sa import q
-from l4sa.core import AnchorMissing, ShapeUnrecognised, SwitchInfo, strip, deep_strip, walk, show, calls_in, cmp_nf
+from l4sa.core import AnchorMissing, ShapeUnrecognised, SwitchInfo, strip, deep_strip, walk, show, short, calls_in, cmp_nf
 from rules import common, c09
 
 CLAIMED = True
@@ -202,7 +202,128 @@ def rule_char_counting(r, p):
             r.require(len(zero) == 1 and ("const", "int", 0) in [deep_strip(x) for x in cmp_nf(zero[0].discr, True)[1:]], "stops-when-budget-exhausted", fn=f, detail="loop exit on remaining == 0")
 
 
+def rule_counts_consumed(r, p):
+    """Each of the three counting writers implements io::Write::write, whose Ok(n) tells the caller that buf[..n] was taken
+    and that it must offer buf[n..] again.  The characters charged to the width counter therefore have to be those of
+    buf[..n] for the very n returned: counting what was offered while returning what the inner writer accepted charges a
+    character twice when it is offered again."""
+    from l4sa.panics import _canon_try
+    pred, cnt = helpers(p)
+    cf = counter_fields(p)
+    canon = lambda e: deep_strip(_canon_try(deep_strip(e)))
+    n = 0
+    for adt, fld in cf.items():
+        ws = [f for f in p.fns.values() if f.d.get("impl_self_adt") == adt and f.path.endswith("::write") and f.d.get("impl_trait") == "std::io::Write"]
+        if len(ws) != 1:
+            raise AnchorMissing("%s: io::Write::write not found" % adt)
+        f = p.fn_loops(ws[0].path)
+        who = adt.rsplit("::", 1)[-1]
+        is_len2 = lambda e: e[0] == "call" and e[1].endswith("::len") and deep_strip(e[2][0]) == ("param", 2)
+
+        def prefix_of_buf(e):
+            """[cut expressions] if e is buf, buf[..a] or buf[..a][..b] (outermost cut last); None otherwise"""
+            e = deep_strip(e)
+            if e == ("param", 2):
+                return []
+            if e[0] == "call" and e[1] == "core::ops::index::Index::index":
+                rg = deep_strip(e[2][1])
+                inner = prefix_of_buf(e[2][0])
+                if inner is not None and rg[0] == "agg" and rg[1].endswith("range::RangeTo"):
+                    return inner + [canon(dict(rg[3])["end"])]
+            return None
+        stores = [(b, i, st) for b, i, st in f.assigns() if b in f.reachable_blocks() and any(isinstance(e_, dict) and e_.get("f") == fld and e_.get("adt") == adt for e_ in st["lhs"]["p"])]
+        for c in f.calls(cnt.path):
+            n += 1
+            key = "charged-equals-consumed:%s#%d" % (who, [x.block for x in f.calls(cnt.path)].index(c.block))
+            cuts = prefix_of_buf(c.arg(0))
+            if cuts is None:
+                r.fail(key, fn=f, site=c.at, detail="%s counts %s, which is not a prefix of the buffer offered" % (short(cnt.path), show(c.arg(0), 4)))
+                continue
+            # what the call reports as consumed on the Ok returns that follow this count
+            rets = [(b, e) for b, e in q.ret_assignments(f) if b == c.block or b in f.reach(c.block)]
+            pays = []
+            for b, e in rets:
+                if q.classify_ret(e) == "err" or q.is_from_residual(e):
+                    continue
+                e = deep_strip(e)
+                if e[0] == "agg" and e[2] == "Ok":
+                    pays.append(canon(dict(e[3]).get("0")))
+                elif e[0] == "agg" and e[2] == "Err":
+                    continue
+                elif e[0] == "call":
+                    pays.append(("field", ("as", canon(e), "Ok"), "0"))
+                else:
+                    pays.append(None)
+            def charged_here(e):
+                e = strip(e)
+                sub = e[3] if e[0] == "bin" and e[1] == "Sub" else e[2][1] if e[0] == "call" and e[1].endswith("::saturating_sub") and len(e[2]) == 2 else None
+                sub = strip(sub) if sub is not None else None
+                return sub is not None and sub[0] == "call" and sub[1] == cnt.path and len(sub) > 3 and sub[3] == c.block
+
+            def values_of(b, st):
+                if st["rv"]["k"] == "use" and (st["rv"]["a"].get("copy") or st["rv"]["a"].get("move")):
+                    return [e_ for b_, c_, e_ in q.guarded_defs(f, st["rv"]["a"])]
+                return [f._rvalue(st["rv"], frozenset(), 40, b)]
+            mine = [(b, i, st) for b, i, st in stores if any(charged_here(v) for v in values_of(b, st))]
+            ok, why = bool(pays), "no Ok return follows the count"
+            for pay in pays:
+                if pay is None:
+                    ok, why = False, "unrecognised return value"
+                    break
+                whole = is_len2(pay)
+                if cuts and cuts[-1] == pay:
+                    why = "counts buf[..n] for the n returned"
+                    continue
+                if not cuts and whole:
+                    why = "counts the whole buffer and reports the whole buffer"
+                    continue
+                # the count enters the counter only where the reported n equals the counted cut
+                good = bool(mine)
+                for b, i, st in mine:
+                    g_ok = False
+                    for sb, si, al in f.conditions(b):
+                        labs = {si.label(v) for v, _ in al}
+                        if not (si.is_bool and labs in ({True}, {False})):
+                            continue
+                        nf = cmp_nf(si.discr, True in labs)
+                        if not nf or nf[0] != "Eq":
+                            continue
+                        x, y = canon(nf[1]), canon(nf[2])
+                        other = y if x == pay else x if y == pay else None
+                        if other is None:
+                            continue
+                        want_cut = cuts[-1] if cuts else None
+                        alts = other[1] if other[0] == "phi" else (other,)
+                        if want_cut is not None and other == want_cut:
+                            g_ok = True
+                        elif want_cut is None and all(is_len2(a) for a in alts):
+                            g_ok = True
+                        elif want_cut is None and st["rv"]["k"] == "use":
+                            # both the cut and the count are chosen on the same edge: there the cut is buf.len()
+                            dl = [d_ for d_ in f.defs(f.term(sb)["discr"].get("move", f.term(sb)["discr"].get("copy", {})).get("l", -1)) if d_[3] == "rv" and d_[4]["k"] == "bin"]
+                            vdefs = [(b_, c_) for b_, c_, e_ in q.guarded_defs(f, st["rv"]["a"]) if charged_here(e_)]
+                            for d_ in dl:
+                                for side in ("a", "b"):
+                                    cds = q.guarded_defs(f, d_[4][side]) if (d_[4][side].get("copy") or d_[4][side].get("move")) else []
+                                    for vb, vc in vdefs:
+                                        same_edge = [e_ for b_, c_, e_ in cds if b_ == vb or (c_ is not None and vc is not None and [show(z, 8) for z in c_] == [show(z, 8) for z in vc])]
+                                        if same_edge and all(is_len2(deep_strip(e_)) for e_ in same_edge):
+                                            g_ok = True
+                    good = good and g_ok
+                if good:
+                    why = "the count is charged only where the reported n equals the counted cut"
+                    continue
+                ok, why = False, "%s(%s) is charged while Ok(%s) is reported" % (short(cnt.path), show(c.arg(0), 3), show(pay, 3))
+                break
+            r.require(ok, key, fn=f, site=c.at, detail=why,
+                      fail_detail="%s::write: %s — a character offered again after a short write is charged twice (or one that was consumed is never charged)" % (who, why))
+    r.floor("count-sites", n, 3)
+
+
 def run_cfg_rest(ctx, p, cfg):
+    with ctx.rule("A7", "the characters charged are the characters consumed", cfg) as r:
+        rule_counts_consumed(r, p)
+
     with ctx.rule("A5", "bytes are swallowed only past the cut", cfg) as r:
         pred, cnt = helpers(p)
         mw = [f for f in p.fns.values() if f.d.get("impl_self_adt") == MAXW and f.path.endswith("::write") and f.d.get("impl_trait") == "std::io::Write"]
